@@ -42,7 +42,7 @@ func (l *Lock) TryAcquire(write bool) bool {
 func (l *Lock) Acquire(write bool) {
 	s := cur
 	if s != nil && s.pLock > 0 {
-		if t := s.current(); t != nil {
+		if t := s.current(); t != nil && !t.dead {
 			if s.Chance("lock.yield", s.pLock) {
 				s.park(t, "lock")
 			}
